@@ -21,6 +21,7 @@ import (
 	"verif/internal/model"
 	"verif/internal/mon"
 	refjson "verif/internal/ref/json"
+	refrender "verif/internal/ref/render"
 )
 
 type c17ParseCase struct {
@@ -82,6 +83,8 @@ func c17ParseJudge(c *mon.Ctx, role, text string, res refjson.Result) {
 	case obs.Pos != want:
 		c.Violate("parse-pos", c17ParseCase{role, text}, "reject at "+strconv.Itoa(want), fmt.Sprintf("reject at %d", obs.Pos),
 			fmt.Sprintf("%s parsing error points at byte %d, the first byte that cannot continue the text is %d (ended early: %v)", role, obs.Pos, want, res.EndedEarly))
+	case obs.Kit != "":
+		c.Violate("parse-pos", c17ParseCase{role, text}, "reject at "+strconv.Itoa(want), fmt.Sprintf("reject at %d; %s", obs.Pos, obs.Kit), "the position of a parsing error is lost by kit.ConvertError")
 	}
 }
 
@@ -415,6 +418,8 @@ func c17ValRun(c *mon.Ctx, i int) {
 			case obs.Pos != want:
 				c.Violate("val-pos", c17ValCase{sp, doc}, "reject at "+strconv.Itoa(want), fmt.Sprintf("reject at %d (code %d)", obs.Pos, obs.Code),
 					"validation error does not point at the offending value or key ("+class+"; oracle: "+o2.Why+")")
+			case obs.Kit != "":
+				c.Violate("val-pos", c17ValCase{sp, doc}, "reject at "+strconv.Itoa(want), c17ObsPos(obs), "the position of a validation error is lost by kit.ConvertError")
 			}
 			if k == 0 && t == 0 && i < 3 {
 				c.Sample("validation position case", map[string]any{"schema": sp.Text, "doc": doc, "class": class, "expected_position": want})
@@ -429,6 +434,9 @@ func c17ObsPos(o lib.Obs) string {
 		return o.String()
 	case o.OK:
 		return "accept"
+	}
+	if o.Kit != "" {
+		return "reject at " + strconv.Itoa(o.Pos) + "; " + o.Kit
 	}
 	return "reject at " + strconv.Itoa(o.Pos)
 }
@@ -468,9 +476,56 @@ type c17TypeCase struct {
 // included, so the faulty node may be reached through inheritance first). The error must refer
 // to the text that owns the node (file name = owner, position = offset of the node inside that
 // text) and must render without panicking.
+// c17CheckErrors: Check failures of the other kinds (missing type, illegal recursion through one
+// and through two types, bad allOf parent, rule errors): whatever position the error exposes is
+// the position the SDK conversion (kit.ConvertError) reports, and it lies inside its source.
+func c17CheckErrors(c *mon.Ctx) {
+	obj := func(key, ref string) *model.Node { return model.Obj(model.P(key, model.Ref(ref))) }
+	cases := []*model.Schema{
+		{Root: model.Ref("@main"), Types: []*model.TypeDef{{Name: "@main", Root: obj("a", "@a")}, {Name: "@a", Root: obj("m", "@main")}}},
+		{Root: obj("x", "@main"), Types: []*model.TypeDef{{Name: "@main", Root: obj("self", "@main")}}},
+		{Root: model.Arr(model.Ref("@t")), Types: []*model.TypeDef{{Name: "@t", Root: model.Ref("@t")}}},
+		{Root: obj("k", "@missing")},
+		{Root: model.Obj(model.P("k", model.Int("1"))).With(model.RAllOf("@nope"))},
+		{Root: model.Obj(model.P("k", model.Int("1"))).With(model.RAllOf("@s")), Types: []*model.TypeDef{{Name: "@s", Root: model.Str("x")}}},
+		{Root: model.Obj(model.P("k", model.Int("1").With(model.RNum("min", "5"))))},
+		{Root: model.Obj(model.P("k", model.Int("1").With(model.RStr("type", "@gone"))))},
+		{Root: model.Int("1").With(model.REnumRef("@norule"))},
+	}
+	for _, full := range []bool{false, true} {
+		for _, s := range cases {
+			sp := specOf(s, model.Style{})
+			sp.FullReg = full
+			sch, obs := lib.Build(sp)
+			if obs.OK {
+				obs = lib.Safe(sch.Check)
+			}
+			c.Eval(1)
+			c.Count("Check errors of other kinds passed through kit.ConvertError", 1)
+			got := "reject, code and position kept by kit.ConvertError"
+			switch {
+			case obs.Panic != "":
+				got = obs.String()
+			case obs.OK:
+				// whether this graph must be rejected is C09's subject
+				c.Count("Check errors of other kinds: schema accepted (not judged here)", 1)
+				continue
+			case obs.Kit != "":
+				got = fmt.Sprintf("reject at %d; %s", obs.Pos, obs.Kit)
+			}
+			if got != "reject, code and position kept by kit.ConvertError" {
+				c.Violate("check-kit", c17TypeCase{Spec: sp}, "reject, code and position kept by kit.ConvertError", got, "a Check error loses its code or position in kit.ConvertError (or the faulty schema is accepted)")
+			}
+		}
+	}
+}
+
 func c17TypeRun(c *mon.Ctx, i int) {
 	_, _, per := c17PosSizes(c.Tier)
 	r := c.Rng(173)
+	if i == 0 {
+		c17CheckErrors(c)
+	}
 	for k := 0; k < per; k++ {
 		s := gen.Graph(r, 6)
 		if k%3 == 0 {
@@ -541,6 +596,7 @@ func c17TypeRun(c *mon.Ctx, i int) {
 			cd.n.Rules = append(cd.n.Rules, model.REnum(`"other"`, "12"))
 		}
 		sp := specOf(s, model.Style{}) // renders every text: positions are those of the owner's text
+		sp.UnnamedFiles = r.Chance(1, 4) // type files without a name: only the rendered line tells the files apart
 		want := cd.n.Pos
 		// the fault surfaces when the type is added (it is loaded then) or when the root is checked
 		sch, obs := lib.Build(sp)
@@ -552,20 +608,41 @@ func c17TypeRun(c *mon.Ctx, i int) {
 		c.Eval(1)
 		c.Count("type positions compared (fault in "+map[bool]string{true: "the root", false: "an added type"}[cd.owner == "root"]+")", 1)
 		c.Distinct(sp.Text + "\x00" + cd.owner + fmt.Sprint(want))
-		got := c17TypeObserve(obs)
-		exp := fmt.Sprintf("reject at %d in %s, renders", want, cd.owner)
+		got := c17TypeObserve(obs, c17OwnerText(sp, cd.owner))
+		exp := c17TypeExpected(sp, cd.owner, want)
 		if got != exp {
 			c.Violate("type-pos", c17TypeCase{sp, cd.owner}, exp, got, "a Check error located inside "+cd.owner+" does not refer to the owner's text and offset, or cannot be rendered")
 		}
 	}
 }
 
-func c17TypeObserve(obs lib.Obs) string {
+// c17OwnerText: the text of the root ("root") or of the named type.
+func c17OwnerText(sp lib.Spec, owner string) string {
+	for _, t := range sp.Types {
+		if t.Name == owner {
+			return t.Text
+		}
+	}
+	return sp.Text
+}
+
+func c17TypeExpected(sp lib.Spec, owner string, want int) string {
+	file := owner
+	if sp.UnnamedFiles && owner != "root" {
+		file = ""
+	}
+	return fmt.Sprintf("reject at %d in %s, renders the owner's line", want, file)
+}
+
+func c17TypeObserve(obs lib.Obs, ownerText string) string {
 	switch {
 	case obs.Panic != "":
 		return obs.String()
 	case obs.OK:
 		return "accept"
+	}
+	if obs.Kit != "" {
+		return fmt.Sprintf("reject at %d; %s", obs.Pos, obs.Kit)
 	}
 	file := ""
 	var f interface{ Filename() string }
@@ -580,6 +657,20 @@ func c17TypeObserve(obs lib.Obs) string {
 			}
 		}()
 		_ = obs.Err.Error()
+		// the line the error shows must be the line of the OWNER's text at that offset
+		var src interface {
+			Line() uint
+			SourceSubString() string
+		}
+		if errors.As(obs.Err, &src) && obs.Pos >= 0 && obs.Pos < len(ownerText) {
+			e := refrender.For([]byte(ownerText), obs.Pos)
+			line, shown := int(src.Line()), src.SourceSubString()
+			if (e.LineDecided && line != e.Line) || !e.TextOK(shown) {
+				render = fmt.Sprintf("renders line %d %q, the owner's text has line %d %q there", line, shown, e.Line, e.Text)
+				return
+			}
+		}
+		render = "renders the owner's line"
 	}()
 	return fmt.Sprintf("reject at %d in %s, %s", obs.Pos, file, render)
 }
@@ -589,14 +680,30 @@ func init() {
 		name:  "positions inside added types",
 		units: func(tier string) int { _, b, _ := c17PosSizes(tier); return b / 4 },
 		run:   c17TypeRun,
-		replay: map[string]func(json.RawMessage) string{"type-pos": func(raw json.RawMessage) string {
+		replay: map[string]func(json.RawMessage) string{"check-kit": func(raw json.RawMessage) string {
+			var cs c17TypeCase
+			json.Unmarshal(raw, &cs)
+			sch, obs := lib.Build(cs.Spec)
+			if obs.OK {
+				obs = lib.Safe(sch.Check)
+			}
+			switch {
+			case obs.Panic != "":
+				return obs.String()
+			case obs.OK:
+				return "accept"
+			case obs.Kit != "":
+				return fmt.Sprintf("reject at %d; %s", obs.Pos, obs.Kit)
+			}
+			return "reject, code and position kept by kit.ConvertError"
+		}, "type-pos": func(raw json.RawMessage) string {
 			var cs c17TypeCase
 			json.Unmarshal(raw, &cs)
 			sch, bo := lib.Build(cs.Spec)
 			if !bo.OK {
-				return c17TypeObserve(bo)
+				return c17TypeObserve(bo, c17OwnerText(cs.Spec, cs.Owner))
 			}
-			return c17TypeObserve(lib.Safe(sch.Check))
+			return c17TypeObserve(lib.Safe(sch.Check), c17OwnerText(cs.Spec, cs.Owner))
 		}},
 	})
 }
